@@ -490,9 +490,17 @@ def h_glue(eng, lang, K, F):
     crash = bool(eng.fresh_bool('crash'))
     if crash:
         text += CRASH_TRAILER[lang]
+    overflow = False
+    if lang == 'groovy' and not crash:
+        # groovyc may print a StackOverflowError without compiler frames: a crash only when no diagnostic was printed
+        overflow = bool(eng.fresh_bool('stackoverflow_text'))
+        if overflow:
+            text += 'java.lang.StackOverflowError\n'
+            if not nerr:
+                crash = True
     comp = C('/tmp/tmpab/src', filt)
     failed, matches = comp.analyze_compiler_output(text)
-    case = dict(lang=lang, units=seq, crash=crash, output=text[:1500],
+    case = dict(lang=lang, units=seq, crash=crash, stackoverflow_text=overflow, output=text[:1500],
                 returned={k: v for k, v in (failed or {}).items()} if failed is not None else None,
                 crash_msg=bool(comp.crash_msg))
     obs = []
@@ -525,6 +533,25 @@ def h_glue(eng, lang, K, F):
     eng.notes['sample'] = dict(lang=lang, units=seq, crash=crash, files=sorted(want))
     eng.notes['observe'] = sorted((failed or {}).keys())
     return obs
+
+
+def h_filter_many(eng, lang, nmax):
+    """any number of filtered diagnostics: n copies of a message the user filter removes, around one genuine error"""
+    C = COMPILERS[lang]
+    n = int(eng.fresh_int(0, nmax, 'n_filtered'))
+    pos = int(eng.fresh_int(0, 1, 'genuine_first'))
+    files = ['/tmp/tmpab_%d9x/src/%s/%s' % (f, ['alpha', 'beta'][f], MAINFILE[lang]) for f in range(2)]
+    noisy, _ = _unit(lang, 'error', files[0], 7)
+    genuine, gmsg = _unit(lang, 'error2' if lang == 'java' else 'error', files[1], 3)
+    units = [noisy] * n
+    units.insert(0 if pos else len(units), genuine)
+    text = ''.join(units)
+    comp = C('/tmp/tmpab/src', [re.escape(noisy.split('\n')[0])])
+    failed, _ = comp.analyze_compiler_output(text)
+    case = dict(lang=lang, filtered_messages=n, returned=sorted((failed or {}).keys()))
+    eng.event('filtered-many')
+    eng.notes['sample'] = case
+    return [Ob('filtered-messages-disregarded|%s|n=%d' % (lang, n), failed is not None and set(failed) == {files[1]}, case)]
 
 
 # --------------------------------------------------- real javac (grammar validation)
@@ -613,6 +640,11 @@ def jobs(tier):
                        bounds='batches of %d units (error/error+details/warning/note) over %d files, any order and '
                               'repetition, filter bit per error (java, kotlin), crash trailer bit' % (K, F),
                        outside=OUT))
+    for lang in ('java', 'kotlin'):
+        nm = 12 if tier == 'quick' else 40
+        out.append(Job('filter-many-%s' % lang, h_filter_many, dict(lang=lang, nmax=nm), serial=True, functions=FUNCS[:1],
+                       require_events=['filtered-many'],
+                       bounds='0..%d diagnostics removed by the user filter around one genuine error' % nm, outside=OUT))
     n = 3 if tier == 'quick' else 5
     out.append(Job('real-javac-%dfiles' % n, h_javac, dict(n=n), split_depth=2, crosscheck_every=0,
                    require_events=['javac-run', 'javac-errors'], functions=[JavaCompiler.get_compiler_cmd], budget_s=900,
